@@ -343,6 +343,11 @@ pub struct Report<'a> {
 }
 
 pub fn replay_files(prop: &str) -> Vec<PathBuf> {
+    // VERIF_NO_REPLAYS=1: the generated search alone (used to measure what the generators find
+    // without the regression inputs)
+    if std::env::var_os("VERIF_NO_REPLAYS").is_some() {
+        return vec![];
+    }
     let dir = verif_root().join("replays").join(prop);
     let mut v: Vec<PathBuf> = std::fs::read_dir(dir).map(|rd| rd.filter_map(|e| e.ok().map(|e| e.path())).filter(|p| p.extension().map_or(false, |x| x == "json")).collect()).unwrap_or_default();
     v.sort();
